@@ -59,7 +59,7 @@ type c08Clone struct {
 }
 
 // c08RunConc is provided by suite_c08_hook.go when the tree under test has the yield hook.
-var c08RunConc func(w *scWorld, b *scBH, threads []c08Thread, sched string) (results []string, trace []string, clones []c08Clone, err string)
+var c08RunConc func(w *scWorld, bs []*scBH, threads []c08Thread, sched string) (results []string, trace []string, clones []c08Clone, err string)
 
 func c08ParseThreads(spec string) []c08Thread {
 	var ts []c08Thread
@@ -87,10 +87,16 @@ func (w *scWorld) stepConc(i int, op string) (out string, retry bool) {
 	if len(f) != 5 {
 		panic("malformed op: " + op)
 	}
-	b := w.bh[f[1]]
-	if b == nil {
-		panic("unknown block cache handle in op: " + op)
+	var bs []*scBH
+	for _, id := range strings.Split(f[1], "+") {
+		x := w.bh[id]
+		if x == nil {
+			panic("unknown block cache handle in op: " + op)
+		}
+		bs = append(bs, x)
 	}
+	b := bs[0] // the writers' target and the only committer whose key order is controlled
+	m := len(bs)
 	threads := c08ParseThreads(f[3])
 	sched := f[4]
 	if sched == "-" {
@@ -100,7 +106,7 @@ func (w *scWorld) stepConc(i int, op string) (out string, retry bool) {
 		w.fail("the tree under test has no statecache yield hook (core/statecache/verif_yield.go): schedules cannot be driven")
 		return "nohook", false
 	}
-	results, trace, clones, err := c08RunConc(w, b, threads, sched)
+	results, trace, clones, err := c08RunConc(w, bs, threads, sched)
 	if err != "" {
 		w.fail("scheduler: %s", err)
 		return "sched-error", false
@@ -125,8 +131,8 @@ func (w *scWorld) stepConc(i int, op string) (out string, retry bool) {
 	for _, t := range trace {
 		var tidx int
 		fmt.Sscanf(t, "%d:", &tidx)
-		if tidx != 0 && threads[tidx-1].kind != "get" {
-			late = append(late, threads[tidx-1])
+		if tidx >= m && threads[tidx-m].kind != "get" {
+			late = append(late, threads[tidx-m])
 		}
 	}
 	// order in which commit() visited the snapshot's keys: key i is fetched (and its value cloned) in committer step 2+3i
@@ -175,26 +181,55 @@ func (w *scWorld) stepConc(i int, op string) (out string, retry bool) {
 			return "", true
 		}
 	}
-	w.recordCommit(b)
-	for _, th := range late {
-		applyWrite(th)
+	// the commits take effect in the order in which the committers got sc.lock = the order of their first steps
+	var corder []int
+	seenC := map[int]bool{}
+	for _, t := range trace {
+		var tidx int
+		fmt.Sscanf(t, "%d:", &tidx)
+		if tidx < m && !seenC[tidx] {
+			seenC[tidx] = true
+			corder = append(corder, tidx)
+		}
+	}
+	for i := 0; i < m; i++ {
+		if !seenC[i] {
+			corder = append(corder, i)
+		}
+	}
+	for _, i := range corder {
+		w.recordCommit(bs[i])
+		if i == 0 {
+			for _, th := range late {
+				applyWrite(th)
+			}
+		}
 	}
 	parts := []string{"c=" + results[0]}
+	for i := 1; i < m; i++ {
+		parts = append(parts, fmt.Sprintf("c%d=%s", i+1, results[i]))
+		if results[i] != "ok" {
+			w.fail("commit %d returned %s", i+1, results[i])
+		}
+	}
+	if m > 1 {
+		w.tags[fmt.Sprintf("conc:committers=%d", m)] = true
+	}
 	strict := w.strict
 	w.strict = false // a concurrent lookup may miss; only hits are judged
 	nget := 0
 	for j, th := range threads {
-		res := results[j+1]
+		res := results[j+m]
 		if th.kind != "get" {
-			parts = append(parts, fmt.Sprintf("w%d=%s", j+1, res))
+			parts = append(parts, fmt.Sprintf("w%d=%s", j+m, res))
 			if res != "ok" {
-				w.fail("writer %d returned %s", j+1, res)
+				w.fail("writer %d returned %s", j+m, res)
 			}
 			w.tags["conc:writer:"+th.kind] = true
 			continue
 		}
 		nget++
-		parts = append(parts, fmt.Sprintf("r%d=%s", j+1, strings.Replace(res, " ", ":", 1)))
+		parts = append(parts, fmt.Sprintf("r%d=%s", j+m, strings.Replace(res, " ", ":", 1)))
 		w.judge(res, w.expectState(th.key, th.hash), th.key, th.hash, true)
 	}
 	w.strict = strict
@@ -239,6 +274,9 @@ func runC08(ops []string) CaseResult {
 		for _, i := range c08Truncated {
 			w.tags[fmt.Sprintf("exhaustive-truncated:two-reader-scenario-%d", i)] = true
 		}
+		if try > 20 && os.Getenv("VERIF_DEBUG") != "" {
+			fmt.Fprintf(os.Stderr, "c08: %d tries for the key order: %s\n", try, strings.Join(ops, " | "))
+		}
 		w.finish()
 		res.Nontrivial = w.tags["conc:interleaved"]
 		return res
@@ -265,6 +303,11 @@ type c08Scn struct {
 	// "tset:<k>:<v>" / "trem:<k>" (a transaction cache on the block holding that write is committed concurrently)
 	writer string
 	wFirst bool // a key added by the writer is visited first by commit()
+	// a SECOND committing block C, committed concurrently with B by another goroutine (serialised by sc.lock):
+	// "sibling" = child of B's parent, "child" = child of B; it writes secondKey
+	second      string
+	secondKey   string
+	secondFirst bool // C's committer is thread 0 (gets the lock first), B's is thread 1
 }
 
 func (s c08Scn) ops(sched string) []string {
@@ -294,6 +337,13 @@ func (s c08Scn) ops(sched string) []string {
 		} else {
 			o = append(o, fmt.Sprintf("bset bb %s b%d", k, i+1))
 		}
+	}
+	if s.second != "" {
+		cp := parent
+		if s.second == "child" {
+			cp = "B"
+		}
+		o = append(o, "blk cc C "+cp, fmt.Sprintf("bset cc %s c9", s.secondKey))
 	}
 	o = append(o, s.preLook...)
 	okeys := append([]string(nil), s.bKeys...)
@@ -338,7 +388,15 @@ func (s c08Scn) ops(sched string) []string {
 	if sched == "" {
 		sched = "-"
 	}
-	o = append(o, fmt.Sprintf("conc bb %s %s %s", order, rd, sched))
+	bidspec := "bb"
+	if s.second != "" {
+		bidspec = "bb+cc"
+		if s.secondFirst {
+			bidspec = "cc+bb"
+		}
+		order = "-"
+	}
+	o = append(o, fmt.Sprintf("conc %s %s %s %s", bidspec, order, rd, sched))
 	// observe the final state strictly: through the committed block's own handle (own writes first — also the writes
 	// that raced with the commit), then every key at every block, twice (the second read sees the memos of the first)
 	if s.writer != "" {
@@ -347,6 +405,10 @@ func (s c08Scn) ops(sched string) []string {
 	blocks := []string{"B", "D", "A"}
 	if s.deep {
 		blocks = []string{"B", "D2", "D", "A2", "A"}
+	}
+	if s.second != "" {
+		o = append(o, "bget cc k1", "bget cc k2", "bget bb k1", "bget bb k2")
+		blocks = append([]string{"C"}, blocks...)
 	}
 	for rep := 0; rep < 2; rep++ {
 		for _, k := range []string{"k1", "k2"} {
@@ -397,6 +459,11 @@ func c08Explore(s c08Scn, budget int, emit func(ops []string)) (n int, truncated
 			emit(ops)
 			n++
 			truncated = true
+			return
+		}
+		if !strings.HasPrefix(tr, prefix) {
+			// the last choice of the prefix was not enabled at that point (a committer waiting for sc.lock, a writer
+			// already issued): the scheduler skipped it and the run duplicates another schedule
 			return
 		}
 		emit(s.ops(tr))
@@ -480,6 +547,28 @@ func c08ScenariosW(withReaders bool) []c08Scn {
 	return out
 }
 
+// TWO committing blocks on two goroutines (the second blocks on sc.lock until the first has returned), with 0..1 lookups
+func c08ScenariosCC(withReaders bool) []c08Scn {
+	var out []c08Scn
+	for _, kind := range []string{"sibling", "child"} {
+		for _, first := range []bool{false, true} {
+			// both write the fresh key k2 (its version map is created by whichever commit comes first); B also writes k1
+			base := c08Scn{aKeys: []string{"k1"}, bKeys: []string{"k2"}, second: kind, secondKey: "k2", secondFirst: first}
+			out = append(out, base)
+			b2 := c08Scn{aKeys: []string{"k1"}, bKeys: []string{"k1"}, second: kind, secondKey: "k1", secondFirst: first}
+			out = append(out, b2)
+			if withReaders {
+				for _, h := range []string{"B", "C", "D"} {
+					sc := base
+					sc.readers = []c08Reader{{"k2", h}}
+					out = append(out, sc)
+				}
+			}
+		}
+	}
+	return out
+}
+
 func c08Scenarios2() []c08Scn {
 	var out []c08Scn
 	hs := []string{"A", "B", "D"}
@@ -506,6 +595,19 @@ func exhC08(tier string, emit func([]string)) {
 	}
 	for _, s := range c08ScenariosW(tier == "thorough") {
 		c08Explore(s, 20000, emit)
+	}
+	ccs := c08ScenariosCC(tier == "thorough")
+	if tier != "thorough" {
+		// quick: every two-committer scenario without a lookup, plus two with one (siblings / parent+child)
+		all := c08ScenariosCC(true)
+		ccs = append(ccs, all[2], all[len(all)-3])
+	}
+	for i, s := range ccs {
+		t0 := time.Now()
+		n, trunc := c08Explore(s, 20000, emit)
+		if os.Getenv("VERIF_DEBUG") != "" {
+			fmt.Fprintf(os.Stderr, "c08 two-committer scenario %d: %d schedules truncated=%v %.1fs\n", i, n, trunc, time.Since(t0).Seconds())
+		}
 	}
 	if tier == "thorough" {
 		for i, s := range c08Scenarios2() {
@@ -953,7 +1055,7 @@ func init() {
 	children["c08race"] = c08RaceChild
 	register(&Suite{
 		Name: "c08",
-		Rule: "one committing block (0..2 keys, optional removal, key's version map present or created by the commit) with 1..2 concurrent StateCache.Get at an ancestor / the block itself / a descendant committed earlier, and/or a concurrent WRITER to the committing block's own handle (BlockCache.Set, or TransactionCache.Commit carrying a set / removal) that either lands before commit's snapshot or waits on the block cache's mutex until the commit returns; schedules driven through the verif yield hook at every shared-map access; exhaustive enumeration of all schedules for every 1-reader scenario (thorough: 2-reader scenarios), random bursty schedules over deeper trees with pre-existing memos; reader hits judged against the chain oracle over the final tree, sequential lookups afterwards judged strictly (visible after commit); non-trivial = at least two context switches",
+		Rule: "one committing block (0..2 keys, optional removal, key's version map present or created by the commit) with 1..2 concurrent StateCache.Get at an ancestor / the block itself / a descendant committed earlier, and/or a SECOND committing block (sibling or child, either committer first; the later one blocks on sc.lock, detected from the goroutine's wait state) and/or a concurrent WRITER to the committing block's own handle (BlockCache.Set, or TransactionCache.Commit carrying a set / removal) that either lands before commit's snapshot or waits on the block cache's mutex until the commit returns; schedules driven through the verif yield hook at every shared-map access; exhaustive enumeration of all schedules for every 1-reader scenario (thorough: 2-reader scenarios), random bursty schedules over deeper trees with pre-existing memos; reader hits judged against the chain oracle over the final tree, sequential lookups afterwards judged strictly (visible after commit); non-trivial = at least two context switches",
 		Gen:  genC08,
 		Run:  runC08,
 		Exhaustive: exhC08,
